@@ -868,6 +868,48 @@ def scalar_with_consumers(draw, early_virtual=True, linear=True):
 
 
 @st.composite
+def same_name_rows_program(draw, early_virtual=True):
+    """Folded multi-row conditions whose rows compare values carried on ONE signal name (so the
+    router must bring them in on different colours and every row needs its own network selection),
+    next to rows over other names; result as 0/1, as a constant or as a copied value."""
+    pal = Palette(early_virtual)
+    types = list(draw(st.permutations(pal.types)))
+    shared = types.pop()
+    stmts = []
+    a, b = "in1", "in2"
+    stmts.append(Decl("Signal", a, SigLit(shared, draw(num(small_int())))))
+    stmts.append(Decl("Signal", b, SigLit(shared, draw(num(small_int())))))
+    others = []
+    for i in range(draw(st.integers(1, 2))):
+        n = f"in{i + 3}"
+        stmts.append(Decl("Signal", n, SigLit(types.pop(), draw(num(small_int())))))
+        others.append(n)
+    derived = draw(st.booleans())
+    if derived:  # computed operands: two arithmetic combinators writing the same name
+        stmts.append(Decl("Signal", "p1", Bin(draw(st.sampled_from(["*", "+"])), Ref(a), Num(draw(st.integers(1, 4))))))
+        stmts.append(Decl("Signal", "p2", Bin(draw(st.sampled_from(["*", "+"])), Ref(b), Num(draw(st.integers(1, 4))))))
+        a, b = "p1", "p2"
+    first = Bin(draw(st.sampled_from(CMPS)), Ref(a), Ref(b)) if draw(st.booleans()) else Bin(draw(st.sampled_from(CMPS)), Ref(b), Ref(a))
+    rows = [first]
+    for n in others:
+        rows.append(Bin(draw(st.sampled_from(CMPS)), Ref(n), draw(num(small_int()))))
+    rows = list(draw(st.permutations(rows)))
+    op = draw(st.sampled_from(["&&", "||"]))
+    cond = rows[0]
+    for r in rows[1:]:
+        cond = Bin(op, cond, r)
+    k = draw(st.integers(0, 2))
+    if k == 0:
+        e = cond
+    elif k == 1:
+        e = Cond(cond, Num(draw(st.sampled_from([1, 7, -3]))))
+    else:
+        e = Cond(cond, Ref(draw(st.sampled_from(others))))
+    stmts.append(Decl("Signal", "q", e))
+    return Program(tuple(stmts))
+
+
+@st.composite
 def balanced_program(draw):
     """Sources that each enter two merges, one of which feeds the other ("balanced loader"):
     total = {s1..sn}; f = total op k; d_i = {f, s_i}; one consumer per d_i. Sources are chest outputs;
@@ -1026,7 +1068,7 @@ def contents_valuations(draw, domain, n):
 
 
 @st.composite
-def cse_program(draw, early_virtual=True):
+def cse_program(draw, early_virtual=True, leak_free=False):
     """Repeated sub-expressions that differ only in output type or output mode, anonymous-constant
     sub-expressions, high fan-out of one source into single-source consumers."""
     pal = Palette(early_virtual)
@@ -1040,7 +1082,11 @@ def cse_program(draw, early_virtual=True):
     vi = 0
     for _ in range(draw(st.integers(1, 3))):
         a = draw(st.sampled_from(ins))
-        op = draw(st.sampled_from(["+", "-", "*", "/", "%", "AND", "XOR", "<<", "**", ">>", "OR"]))
+        forced = draw(st.integers(0, 2)) == 0  # a OP k next to k OP a
+        if forced and draw(st.booleans()):
+            op = draw(st.sampled_from(["-", "/", "%", "<<", "**", ">>", "**"]))  # operators that do not commute
+        else:
+            op = draw(st.sampled_from(["+", "-", "*", "/", "%", "AND", "XOR", "<<", "**", ">>", "OR"]))
         k = Num(draw(st.integers(1, 9) if op != "**" else st.integers(2, 3)))
         cmp_ = draw(st.sampled_from(CMPS))
         c = Num(draw(st.integers(-5, 20)))
@@ -1056,10 +1102,17 @@ def cse_program(draw, early_virtual=True):
             Cond(cond, Paren(base)), Cond(cond, Paren(Bin(draw(st.sampled_from(["+", "*", "-"])), Ref(a), Num(draw(st.integers(2, 9)))))),
             Cond(cond, Paren(Bin("+", base, Num(1)))),
             Bin("+", Bin(op, Num(draw(st.integers(1, 5))), Num(draw(st.integers(1, 5)))), Ref(a)),
+            # the repeated / swapped sub-expression as an anonymous operand (CSE treats named and unnamed nodes differently)
+            Bin(draw(st.sampled_from(["+", "-", "XOR"])), Bin(op, k, Ref(a)), Num(draw(st.integers(1, 9)))),
+            Bin(draw(st.sampled_from(["+", "-", "XOR"])), base, Num(draw(st.integers(1, 9)))),
         ]
+        if leak_free:
+            # absolute oracles (C01) stay clear of F-leak: no combinator that reads the input next to a value derived from it
+            variants = [v for v in variants if not (isinstance(v, Cond) and isinstance(v.v, Paren))]
         picks = draw(st.lists(st.integers(0, len(variants) - 1), min_size=2, max_size=6))
-        if draw(st.integers(0, 2)) == 0:
-            picks = [0, variants.index(Bin(op, k, Ref(a)))] + picks[:3]  # a OP k next to k OP a
+        if forced:
+            swapped = variants.index(Bin(op, k, Ref(a)))
+            picks = [draw(st.sampled_from([0, len(variants) - 1])), draw(st.sampled_from([swapped, len(variants) - 2]))] + picks[:3]
         for p in picks:
             vi += 1
             stmts.append(Decl("Signal", f"v{vi}", variants[p]))
